@@ -30,7 +30,7 @@ def sh(cmd, **kw):
 ENV = ""
 REPO = "/repo"
 # --relevant: which source files a property's check looks at closely enough for a rewrite there to matter to it
-RELEVANT = {"C15": ["remotes.py"], "C17": ["bridge.py"], "C07": ["bridge.py"], "C05": ["bridge.py", "device/__init__.py", "device/tools.py"], "C18": ["api/__init__.py"], "C03": ["api/__init__.py", "messages.py", "device/tools.py", "packets.py"],
+RELEVANT = {"C01": ["api/__init__.py", "messages.py", "device/tools.py", "packets.py", "remotes.py"], "C15": ["remotes.py"], "C17": ["bridge.py"], "C07": ["bridge.py"], "C05": ["bridge.py", "device/__init__.py", "device/tools.py"], "C18": ["api/__init__.py"], "C03": ["api/__init__.py", "messages.py", "device/tools.py", "packets.py"],
             "C09": ["api/__init__.py", "messages.py"]}
 
 
